@@ -69,6 +69,9 @@ def strip_lean_comments(src):
 EXTRA = {
     "C06": [(os.path.join("Props", "C06Phonetic.lean"), "C06P", "RitiModel.Props.C06Phonetic")],
     "C16": [(os.path.join("Props", "Bijoy.lean"), "Bijoy", "RitiModel.Props.Bijoy")],
+    # the JSON fragment of the per-user files (reader, writer, UTF-8 layer, crash points of the save)
+    "C09": [(os.path.join("Props", "Json.lean"), "Json", "RitiModel.Props.Json")],
+    "C10": [(os.path.join("Props", "Json.lean"), "Json", "RitiModel.Props.Json")],
 }
 # kernel-checked sample modules (examples only): built with the property, the dictionary ones only in the thorough tier
 SAMPLES = {"C16": (["RitiModel.Props.BijoySamples"], ["RitiModel.Props.BijoySamplesDict", "RitiModel.Props.BijoySamplesDict2"])}
